@@ -7,6 +7,7 @@ package main
 // Fails closed on any construct outside the small grammar below.
 
 import (
+	"encoding/base64"
 	"fmt"
 	"go/ast"
 	"go/parser"
@@ -24,6 +25,10 @@ type tmTr struct {
 	reParam  string
 	nk       int
 	sParam   string
+	// the prefix-class table: pattern strings compared verbatim, each with the unicode predicate of the matcher built for it
+	table     [][2]string // (pattern string, unicode function name)
+	tableSeen bool
+	files     []*ast.File
 }
 
 type tmErr struct{ msg string }
@@ -50,7 +55,241 @@ var tmMatcherCtor = map[string]string{
 	"prefixRunePredMatcher":  "MPrefixPred",
 }
 
-var tmPreds = map[string]string{"IsUpper": "PredIsUpper", "IsLower": "PredIsLower"}
+// the func(rune) bool predicates of package unicode
+var tmPreds = map[string]string{"IsUpper": "PredIsUpper", "IsLower": "PredIsLower", "IsTitle": "PredIsTitle", "IsLetter": "PredIsLetter",
+	"IsDigit": "PredIsDigit", "IsNumber": "PredIsNumber", "IsSpace": "PredIsSpace", "IsPunct": "PredIsPunct", "IsSymbol": "PredIsSymbol",
+	"IsMark": "PredIsMark", "IsControl": "PredIsControl", "IsGraphic": "PredIsGraphic", "IsPrint": "PredIsPrint"}
+
+// unicodePred: `unicode.IsX` -> "IsX" ("" for anything else)
+func unicodePred(e ast.Expr) string {
+	if sel, ok := e.(*ast.SelectorExpr); ok {
+		if id, ok := sel.X.(*ast.Ident); ok && id.Name == "unicode" {
+			if _, ok := tmPreds[sel.Sel.Name]; ok {
+				return sel.Sel.Name
+			}
+		}
+	}
+	return ""
+}
+
+// predMatcherOf: `&prefixRunePredMatcher{pred: E}` -> E (nil for anything else)
+func predMatcherOf(e ast.Expr) ast.Expr {
+	u, ok := e.(*ast.UnaryExpr)
+	if !ok || u.Op != token.AND {
+		return nil
+	}
+	cl, ok := u.X.(*ast.CompositeLit)
+	if !ok || len(cl.Elts) != 1 {
+		return nil
+	}
+	if tn, ok := cl.Type.(*ast.Ident); !ok || tn.Name != "prefixRunePredMatcher" {
+		return nil
+	}
+	kv, ok := cl.Elts[0].(*ast.KeyValueExpr)
+	if !ok {
+		return nil
+	}
+	if k, ok := kv.Key.(*ast.Ident); !ok || k.Name != "pred" {
+		return nil
+	}
+	return kv.Value
+}
+
+func stringLit(e ast.Expr) (string, bool) {
+	lit, ok := e.(*ast.BasicLit)
+	if !ok || lit.Kind != token.STRING {
+		return "", false
+	}
+	v, err := strconv.Unquote(lit.Value)
+	return v, err == nil
+}
+
+// tableSwitch: `switch s { case LIT, ...: return &prefixRunePredMatcher{pred: unicode.IsX} ... }` -- the source's way of
+// writing the prefix-class table down. ok=false when any clause has another form (the switch is then translated inline).
+func (t *tmTr) tableSwitch(s *ast.SwitchStmt) (entries [][2]string, ok bool) {
+	if len(s.Body.List) == 0 {
+		return nil, false
+	}
+	for _, c := range s.Body.List {
+		cc := c.(*ast.CaseClause)
+		if len(cc.List) == 0 || len(cc.Body) != 1 {
+			return nil, false
+		}
+		ret, isRet := cc.Body[0].(*ast.ReturnStmt)
+		if !isRet || len(ret.Results) != 1 {
+			return nil, false
+		}
+		pe := predMatcherOf(ret.Results[0])
+		if pe == nil {
+			return nil, false
+		}
+		name := unicodePred(pe)
+		if name == "" {
+			t.fail(ret, "prefix-class table: the predicate is not a func(rune) bool of package unicode")
+		}
+		for _, e := range cc.List {
+			v, isLit := stringLit(e)
+			if !isLit {
+				return nil, false
+			}
+			entries = append(entries, [2]string{v, name})
+		}
+	}
+	return entries, true
+}
+
+// mapTable: a package-level `var NAME = map[string]func(rune) bool{LIT: unicode.IsX, ...}` of either file
+func (t *tmTr) mapTable(at ast.Node, name string) [][2]string {
+	for _, f := range t.files {
+		for _, d := range f.Decls {
+			gd, ok := d.(*ast.GenDecl)
+			if !ok || gd.Tok != token.VAR {
+				continue
+			}
+			for _, sp := range gd.Specs {
+				vs := sp.(*ast.ValueSpec)
+				for i, n := range vs.Names {
+					if n.Name != name {
+						continue
+					}
+					if i >= len(vs.Values) {
+						t.fail(vs, "table %s has no initialiser", name)
+					}
+					cl, ok := vs.Values[i].(*ast.CompositeLit)
+					if !ok || exprString(t.fset, cl.Type) != "map[string]func(rune) bool" {
+						t.fail(vs, "table %s is not a map[string]func(rune) bool literal", name)
+					}
+					var out [][2]string
+					for _, el := range cl.Elts {
+						kv, ok := el.(*ast.KeyValueExpr)
+						if !ok {
+							t.fail(el, "table %s: element without key", name)
+						}
+						k, isLit := stringLit(kv.Key)
+						p := unicodePred(kv.Value)
+						if !isLit || p == "" {
+							t.fail(el, "table %s: entry is not a string literal mapped to a func(rune) bool of package unicode", name)
+						}
+						out = append(out, [2]string{k, p})
+					}
+					// the table must not be written to anywhere else
+					for _, f2 := range t.files {
+						ast.Inspect(f2, func(nd ast.Node) bool {
+							switch nd := nd.(type) {
+							case *ast.AssignStmt:
+								for _, l := range nd.Lhs {
+									if strings.Contains(exprString(t.fset, l), name) {
+										t.fail(nd, "table %s is assigned to", name)
+									}
+								}
+							case *ast.CallExpr:
+								if id, ok := nd.Fun.(*ast.Ident); ok && (id.Name == "delete" || id.Name == "clear") && len(nd.Args) > 0 && exprString(t.fset, nd.Args[0]) == name {
+									t.fail(nd, "table %s is modified", name)
+								}
+							}
+							return true
+						})
+					}
+					return out
+				}
+			}
+		}
+	}
+	t.fail(at, "table %s not found at package level", name)
+	return nil
+}
+
+// tableLookup: the table written as a map and looked up by the pattern string,
+//   if pred, ok := TABLE[s]; ok { return &prefixRunePredMatcher{pred: pred} }
+// or behind a common prefix of all keys,
+//   if strings.HasPrefix(s, LIT) { if pred, ok := TABLE[s[len(LIT):]]; ok { return &prefixRunePredMatcher{pred: pred} } }
+// (s has the prefix and the rest is a key  <=>  s is LIT+key). ok=false: the statement is something else.
+func (t *tmTr) tableLookup(s *ast.IfStmt) (entries [][2]string, ok bool) {
+	lookup := func(is *ast.IfStmt, prefix string) ([][2]string, bool) {
+		as, isAs := is.Init.(*ast.AssignStmt)
+		if !isAs || as.Tok != token.DEFINE || len(as.Lhs) != 2 || len(as.Rhs) != 1 || is.Else != nil {
+			return nil, false
+		}
+		ix, isIx := as.Rhs[0].(*ast.IndexExpr)
+		if !isIx {
+			return nil, false
+		}
+		tn, isId := ix.X.(*ast.Ident)
+		pv, ok1 := as.Lhs[0].(*ast.Ident)
+		okv, ok2 := as.Lhs[1].(*ast.Ident)
+		if !isId || !ok1 || !ok2 {
+			return nil, false
+		}
+		if c, isC := is.Cond.(*ast.Ident); !isC || c.Name != okv.Name {
+			return nil, false
+		}
+		if len(is.Body.List) != 1 {
+			return nil, false
+		}
+		ret, isRet := is.Body.List[0].(*ast.ReturnStmt)
+		if !isRet || len(ret.Results) != 1 {
+			return nil, false
+		}
+		pe := predMatcherOf(ret.Results[0])
+		if id, isPid := pe.(*ast.Ident); pe == nil || !isPid || id.Name != pv.Name {
+			return nil, false
+		}
+		// the key: s (no prefix) or s[len(LIT):] / s[N:] with N = len(prefix)
+		key := exprString(t.fset, ix.Index)
+		want := []string{t.sParam}
+		if prefix != "" {
+			want = []string{fmt.Sprintf("%s[len(%s):]", t.sParam, "`"+prefix+"`"), fmt.Sprintf("%s[len(%s):]", t.sParam, strconv.Quote(prefix)),
+				fmt.Sprintf("%s[%d:]", t.sParam, len(prefix))}
+		}
+		found := false
+		for _, w := range want {
+			found = found || key == w
+		}
+		if !found {
+			t.fail(ix, "prefix-class table looked up with a key that is not the pattern string (behind the tested prefix)")
+		}
+		var out [][2]string
+		for _, e := range t.mapTable(ix, tn.Name) {
+			out = append(out, [2]string{prefix + e[0], e[1]})
+		}
+		return out, true
+	}
+	if s.Init != nil {
+		return lookup(s, "")
+	}
+	call, isCall := s.Cond.(*ast.CallExpr)
+	if !isCall || !isSel(call.Fun, "strings", "HasPrefix") || len(call.Args) != 2 || s.Else != nil || len(s.Body.List) != 1 {
+		return nil, false
+	}
+	if id, isId := call.Args[0].(*ast.Ident); !isId || id.Name != t.sParam {
+		return nil, false
+	}
+	prefix, isLit := stringLit(call.Args[1])
+	inner, isIf := s.Body.List[0].(*ast.IfStmt)
+	if !isLit || !isIf || prefix == "" {
+		return nil, false
+	}
+	return lookup(inner, prefix)
+}
+
+// useTable: the Coq term of a table site -- found: the matcher with the entry's predicate; not found: what follows
+func (t *tmTr) useTable(at ast.Node, entries [][2]string, rest string) string {
+	if t.tableSeen {
+		t.fail(at, "a second prefix-class table")
+	}
+	t.tableSeen = true
+	seen := map[string]bool{}
+	for _, e := range entries {
+		if seen[e[0]] {
+			t.fail(at, "prefix-class table: duplicate key %q", e[0])
+		}
+		seen[e[0]] = true
+	}
+	t.table = entries
+	t.nk++
+	kn := fmt.Sprintf("k%d_", t.nk)
+	return fmt.Sprintf("(let %s := %s in\n   match table_find %s gen_prefix_table with Some p_ => Ok (Some (MPrefixPred p_)) | None => %s end)", kn, rest, t.sParam, kn)
+}
 
 func isSel(e ast.Expr, pkg, name string) bool {
 	s, ok := e.(*ast.SelectorExpr)
@@ -302,6 +541,9 @@ func (t *tmTr) stmts(list []ast.Stmt, k string) string {
 		}
 		return t.retExpr(s.Results[0])
 	case *ast.IfStmt:
+		if entries, ok := t.tableLookup(s); ok {
+			return t.useTable(s, entries, rest())
+		}
 		if s.Init != nil || s.Else != nil {
 			t.fail(s, "if with init/else")
 		}
@@ -315,6 +557,9 @@ func (t *tmTr) stmts(list []ast.Stmt, k string) string {
 		}
 		if id, ok := s.Tag.(*ast.Ident); !ok || id.Name != t.sParam {
 			t.fail(s, "switch over something other than the pattern string")
+		}
+		if entries, ok := t.tableSwitch(s); ok {
+			return t.useTable(s, entries, rest())
 		}
 		t.nk++
 		r := fmt.Sprintf("k%d_", t.nk)
@@ -446,6 +691,7 @@ func genTextmatch(repo string, args []string) (out string, err error) {
 	if err != nil {
 		return "", err
 	}
+	t.files = []*ast.File{cf, mf}
 	var sb strings.Builder
 	sb.WriteString("(* GENERATED by go2coq textmatch from ruleguard/textmatch/{compile.go,matchers.go} -- regenerated on every check. *)\n")
 	sb.WriteString("From Coq Require Import List ZArith Bool Arith.\nFrom RG.Base Require Import Outcome GoSlice.\nFrom RG.Regex Require Import Utf8 Regex FastPath GoOps.\nImport ListNotations.\nLocal Open Scope Z_scope.\n\n")
@@ -511,8 +757,21 @@ func genTextmatch(repo string, args []string) (out string, err error) {
 		fmt.Fprintf(&sb, "Definition gen_%s (%s : regex) : outcome bool := %s.\n\n", name, p, t.boolExpr(ret.Results[0], p))
 		t.closures[name] = true
 	}
+	body := t.stmts(co.Body.List[i:], "(Panic PExplicit)")
+	// the prefix-class table of this source (empty when compileOptimized has none)
+	sb.WriteString("Definition gen_prefix_table : prefix_table := [")
+	var js []string
+	for k, e := range t.table {
+		if k > 0 {
+			sb.WriteString(";")
+		}
+		fmt.Fprintf(&sb, "\n  (%s, %s)", coqBytes(e[0]), tmPreds[e[1]])
+		js = append(js, fmt.Sprintf("[%q,%q]", base64.StdEncoding.EncodeToString([]byte(e[0])), e[1]))
+	}
+	sb.WriteString("].\n")
+	fmt.Fprintf(&sb, "(* PREFIX-TABLE-JSON: [%s] *)\n\n", strings.Join(js, ","))
 	fmt.Fprintf(&sb, "Definition gen_compileOptimized (%s : bytes) (%s : regex) : outcome (option matcher) :=\n  %s.\n\n",
-		t.sParam, t.reParam, t.stmts(co.Body.List[i:], "(Panic PExplicit)"))
+		t.sParam, t.reParam, body)
 
 	// ---- matchers.go
 	methods := map[string]map[string]string{}
